@@ -110,7 +110,8 @@ class GenDir:
         sub = rng.choice(['', 'sub%d' % i])
         zs = sorted(rng.sample(range(1, 60), rng.randint(1, 5)))
         nver = rng.randint(1, 3)
-        versions = [str(v) for v in range(nver)]
+        # version labels with one and two digits (the index orders them as numbers; file names carry them between dots)
+        versions = [str(v) for v in (range(nver) if rng.random() < 0.5 else sorted(rng.sample([0, 1, 2, 9, 10, 11, 12], nver)))]
         names = [base] + (['%s-alias' % base] if rng.random() < 0.4 else [])
         self.files['%s.metadata.json' % fbase] = {
             'molssi_bse_schema': _schema('metadata'), 'names': names, 'tags': [], 'family': family,
@@ -156,7 +157,7 @@ class GenDir:
                 rng.shuffle(order)      # the table's own element order is what get_basis must keep
             tfile = os.path.join(sub, '%s.%s.table.json' % (fbase, ver)) if sub else '%s.%s.table.json' % (fbase, ver)
             self.files[tfile] = {'molssi_bse_schema': _schema('table'), 'revision_description': 'rev %s of %s' % (ver, base),
-                                 'revision_date': '2020-01-0%d' % (int(ver) + 1),
+                                 'revision_date': '2020-01-%02d' % (int(ver) + 1),
                                  'elements': {str(z): efile for z in order}}
             if sub:
                 # the metadata file lives beside the table files
